@@ -31,10 +31,15 @@ def bit_width(run, F):
         reps.add((1 << k) - 1)
     bad = None
     thresholds = set()
+    # the statement is about every 32-bit argument: what the body sees is the argument converted to the parameter's type
+    UNSIGNED_BITS = {'unsigned char': 8, 'unsigned short': 16, 'unsigned int': 32, 'unsigned long': 64, 'unsigned long long': 64}
+    pty = (fn.params[0].get('ty') or '').replace('const ', '').strip() if fn.params else ''
+    run.require(len(fn.params) == 1 and pty in UNSIGNED_BITS, 'bitWidth parameter of a type the rule does not know: %r' % pty)
+    pbits = UNSIGNED_BITS[pty]
     for v in sorted(reps):
         ev = Evaluator(F)
         try:
-            got = ev.call(fn, None, [Evaluator.In(v, 'v')])
+            got = ev.call(fn, None, [Evaluator.In(v & ((1 << pbits) - 1), 'v')])
         except cmpdomain.NotPure as e:
             raise AnalysisBroken('bitWidth is outside the threshold fragment: %s' % e)
         if ev.other_uses:
@@ -45,7 +50,7 @@ def bit_width(run, F):
             bad = {'v': v, 'returns': ev.raw(got), 'expected': want}
     # the partition really is the one we evaluated: every threshold the function tests is a power of two in our grid
     grid_ok = all(t in reps or (t - 1) in reps for t in thresholds)
-    run.ob('C13.a', 'bitWidth(v) == bit length of v on both end points of all 33 threshold regions (thresholds tested: %d)' % len(thresholds),
+    run.ob('C13.a', 'bitWidth(v) == bit length of v on both end points of all 33 threshold regions (thresholds tested: %d; parameter type %s, %d bits)' % (len(thresholds), pty, pbits),
            bad is None and grid_ok, where=fn.pat, detail=bad, key='bitWidth returns the wrong width')
 
 
